@@ -252,6 +252,30 @@ fn run(ctx: &Ctx, rep: &Report) {
         rep.count(&format!("{name}.greater"), outcomes[2].load(AO::Relaxed));
     }
 
+    // 1b. thorough: length 5 over an 8-symbol sub-alphabet (37 449 strings, 1.4e9 ordered pairs)
+    if ctx.tier.pick(false, true) {
+        let sub = enumerate(&["0", "1", "a", "B", ".", "~", "^", "-"], 5);
+        let m = sub.len();
+        rep.count("enumerated_strings_len5_subalphabet", m as u64);
+        par_for(ctx.threads, m as u64, 4, |i| {
+            let a = &sub[i as usize];
+            let r = guard(|| {
+                for b in sub.iter() {
+                    let got = lib_cmp(Slot::Version, a, b);
+                    let want = model_cmp(Slot::Version, a, b);
+                    if got != want {
+                        pair_violation(rep, "version-slot-len5", a, b, got, want);
+                    }
+                }
+            });
+            if let Err(p) = r {
+                rep.violation(format!("panic:{}", p.site()), format!("panic comparing {a:?}: {}", p.message), json!({"kind": "version-slot", "a": a}), a.len() as u64);
+            }
+        });
+        rep.eval((m * m) as u64);
+        rep.nontrivial_many(sub.iter().map(|s| hash_bytes(s.as_bytes())));
+    }
+
     // 2. total preorder on the whole matrix (version slot = the comparison primitive)
     let cmpf = |i: usize, j: usize| lib_cmp(Slot::Version, &strings[i], &strings[j]);
     let showf = |i: usize| format!("{:?}", strings[i]);
@@ -390,7 +414,7 @@ fn run(ctx: &Ctx, rep: &Report) {
     }
 
     // 5. random long pairs
-    let nrand: u64 = ctx.tier.pick(2_000_000, 100_000_000);
+    let nrand: u64 = ctx.tier.pick(2_000_000, 600_000_000);
     let hashed = AtomicU64::new(0);
     let chunk = 10_000u64;
     par_for(ctx.threads, nrand / chunk, 1, |c| {
